@@ -822,3 +822,52 @@ def expr_mentions(e, pred):
     if isinstance(e, tuple):
         return any(expr_mentions(x, pred) for x in e if isinstance(x, tuple))
     return False
+
+
+def eval_on_variant(B, variant_index, self_arg=1, max_steps=200):
+    """Result of a small pure predicate `fn(&self) -> bool|const` when self is enum variant `variant_index`: follows
+    discriminant switches on the argument with that value and constant switches; returns the constant assigned to the
+    return place, or None when the walk meets anything it cannot decide."""
+    bb, steps, ret = 0, 0, None
+    consts = {}
+    while steps < max_steps:
+        steps += 1
+        blk = B.blocks[bb]
+        for st in blk['s']:
+            if st['k'] != '=':
+                continue
+            rv = st['rv']
+            val = None
+            if rv['k'] == 'use' and rv['op']['k'] == 'c' and 'v' in rv['op']:
+                val = rv['op']['v']
+            elif rv['k'] == 'use' and rv['op']['k'] in ('cp', 'mv') and not rv['op']['pl'].get('p'):
+                val = consts.get(rv['op']['pl']['l'])
+            elif rv['k'] == 'discr':
+                base = rv['pl']['l']
+                if base == self_arg or consts.get(('ref', base)) == 'self':
+                    val = variant_index
+            elif rv['k'] == 'un' and rv['op'] == 'Not' and rv['a']['k'] in ('cp', 'mv'):
+                v0 = consts.get(rv['a']['pl']['l'])
+                val = (not v0) if isinstance(v0, bool) else ((1 - v0) if v0 in (0, 1) else None)
+            if not st['pl'].get('p'):
+                consts[st['pl']['l']] = val
+                if st['pl']['l'] == 0:
+                    ret = val
+        t = blk['t']
+        if t['k'] in ('goto', 'falseedge', 'falseunwind', 'drop'):
+            bb = t['t']
+            continue
+        if t['k'] == 'ret':
+            return ret
+        if t['k'] == 'switch':
+            d = t['d']
+            v = d.get('v') if d['k'] == 'c' else consts.get(d['pl']['l'])
+            if v is None:
+                return None
+            if isinstance(v, bool):
+                v = 1 if v else 0
+            tgt = [b_ for c_, b_ in t['cases'] if c_ == v]
+            bb = tgt[0] if tgt else t['else']
+            continue
+        return None
+    return None
